@@ -329,8 +329,12 @@ def create_linear_transform(linear_transform, features):
         return transforms.CompositeTransform(
             [
                 transforms.RandomPermutation(features=features),
+                # The identity initialisation uses num_householder // 2 unit
+                # vectors, more than `features` gives zero vectors and NaNs.
                 transforms.SVDLinear(
-                    features, num_householder=10, identity_init=True
+                    features,
+                    num_householder=min(10, 2 * features),
+                    identity_init=True,
                 ),
             ]
         )
